@@ -9,6 +9,11 @@ are read back with the stdlib `sqlite3` module and compared
       (exactly one row per exchange, in order, exact bytes, exception, pre-state snapshot, times, mode) and
   (b) with the rows the Lean model leaves for the same history under a *random* schedule of producer / consumer steps.
 A `Could not log messages to database` warning is a completeness violation.
+
+The widened part of the tie lives in `harness/lib/c11x.py` (case families `multi`: several producers behind the client
+mutex incl. the real tester-present worker, cancellations of single tasks, injected write faults; `tables`: programs of
+DBHandler API calls, all tables read back, foreign keys; `life`: a real UDSScanner through entry_point(), the
+scanner-level implicit-logging switch); those cases run first.
 """
 from __future__ import annotations
 
@@ -29,11 +34,12 @@ PROOF = "Gallia.Proofs.C11"
 DRIVER = "c11"
 ORACLE = False
 ASSUMPTIONS = [
-    "sqlite durability, the file system and aiosqlite's worker thread are trusted (rows are read back after disconnect())",
-    "asyncio.Queue is FIFO and put() on an unbounded queue does not suspend; join() returns when every put() was matched by task_done()",
+    "sqlite durability, the file system and aiosqlite's worker thread are trusted (rows are read back after disconnect()); a statement handed to the connection thread is executed even when the awaiting task is cancelled meanwhile (aiosqlite 0.22 contract, modelled)",
+    "asyncio.Queue is FIFO and put() on an unbounded queue does not suspend; join() returns when every put() was matched by task_done(); asyncio.Lock is FIFO and release() only schedules the first waiter (the task that releases runs on to its next real suspension point) - what makes 'exchange ends, mutex released, row queued, state updated' one atomic step; the absence of awaits in that stretch is regenerated from the AST (finally_is_atomic, queue_unbounded)",
     "wall-clock timestamps (datetime.now) are non-decreasing during a run",
-    "one producer at a time (the scanner task); the cyclic tester-present task is not part of the histories",
-    "recurring sqlite OperationalErrors (retry choice of the model) are not injected by the correspondence run",
+    "a call of ECU.request that is cancelled while it waits for the client mutex leaves a row (no reply, no exception) although nothing was transmitted: modelled as the code does it (Call.granted = false), not counted as a violation - the property speaks about requests that were put on the wire",
+    "write faults are OperationalErrors raised by execute / commit of the writer task, any finite number per row (injected into the real connection object); faults of the statements the run task executes itself (insert_run_meta, insert_scan_run, ...: no retry in the code, the exception reaches the caller) and recurring faults (join() never returns: theorem join_blocks_while_writes_fail, the code's own TODO) are outside the tie",
+    "the writer task has had its first step before disconnect() (in the lifecycle insert_run_meta follows connect() and suspends); the tables error_log / ecu, which DBHandler never writes, are outside the model",
 ]
 
 # ------------------------------------------------------------------------------------------------------------------
@@ -983,12 +989,17 @@ def run(ctx):
     _env()
     ctx.rule = ("case = history of exchanges (request kind, transport script, tags, implicit switch, retries, yields) + crash "
                 "point; distinct = distinct case JSON; every case has >= 1 exchange on the wire; non-trivial = all of them "
-                "(each runs the real ECU + DBHandler + sqlite file and is read back)")
+                "(each runs the real ECU + DBHandler + sqlite file and is read back); the families multi / tables / life of "
+                "harness/lib/c11x.py: case = tasks with per-call reply scripts and latencies + cancellations + write faults, "
+                "resp. sessions of API calls + cut point + faults, resp. scanner options + constructor / main() steps")
     _state_corr(ctx)
     _attrs_corr(ctx)
     cases = gen_cases(ctx)
     ctx.exhaustive_parts.append(f"every request kind ({len(_env()['K'])}) x every outcome class ({len(OUTCOMES)}) as a single-exchange history")
     ctx.exhaustive_parts.append("cancellation at every write / read await of multi-await exchanges (pending loop, retries)")
+    ctx.exhaustive_parts.append("UDSScanner through entry_point(): the switch set in the constructor (5 patterns) x ping x properties x tester-present x ecu_reset")
+    ctx.exhaustive_parts.append("every single-row write-fault pattern (execute / commit, 1..2 failures) on a burst of 3 queued rows")
+    ctx.exhaustive_parts.append("the lifecycle order of DBHandler API calls (with and without discovery) cancelled at every awaited statement")
     ctx.exhaustive_parts.append("cancellation requested (not yet delivered) at every read of the last exchange of small histories, and at the end of bursts long enough to fill the write queue if it had a capacity")
     budget = ctx.pick(60, 780)
     pending = []
@@ -1032,20 +1043,34 @@ def replay(ctx, rec):
 
 
 MANIFEST = {
-    "level_text": ("Lean 4 theorems over an executable model of the logging path (ECU._request finally-block, state snapshot "
-                   "before update_state, execute queue with a single consumer, disconnect = join; cancel) under an interleaving "
-                   "semantics with cancellation at any point: for every history and every schedule the rows left after "
-                   "disconnect are exactly the rows of the performed exchanges, once each, in order, byte-exact, with the "
-                   "pre-request state, send <= receive time, implicit/emphasized as requested, nothing while implicit logging is "
-                   "off; every attribute shape of the live request/response classes maps to JSON. Tied to the code by a "
-                   "correspondence run of the real ECU + DBHandler on a temporary sqlite file over a scripted transport: every "
-                   "request kind x outcome class, cancellation at every await, seeded histories with crash points, rows read "
-                   "back with sqlite3."),
-    "level_note": ("Trusted: Lean kernel, sqlite/aiosqlite/file system durability, asyncio.Queue contract, wall clock "
-                   "monotonicity, the harness. The inner retry loop's outcome is an input of the model (C04 owns it); recurring "
-                   "OperationalErrors are modelled (retry choice) but not injected. The producer's put never suspends because the "
-                   "write queue is unbounded: regenerated from the AST of DBHandler.connect on every run (theorem queue_unbounded), "
-                   "a bounded queue is shown to lose rows (witness example)."),
-    "technique": "Lean 4 proof (invariant over an interleaving semantics) + regenerated attribute-shape table + differential correspondence against the real ECU/DBHandler on sqlite",
+    "level_text": ("Lean 4 theorems over executable models of the whole logging path. (1) ECU._request finally-block (state snapshot "
+                   "before update_state), execute queue with a single consumer, disconnect = join; cancel, under an interleaving "
+                   "semantics with cancellation at any point and write failures (OperationalError at execute / at commit, any "
+                   "number of times, any row): for every history and every schedule the rows left after disconnect are exactly the "
+                   "rows of the performed exchanges, once each, in order, byte-exact, with the pre-request state, send <= receive "
+                   "time, implicit/emphasized as requested, nothing while implicit logging is off (rows_eq_history_under_faults; "
+                   "join_returns_after_finite_faults). (2) Several producers behind the client mutex (scanner task, further scanner "
+                   "coroutines, cyclic tester-present task; FIFO lock, cancellation of any task while idle / waiting / on the wire): "
+                   "rows in completion order = transmission order, one per call, pre-state folded over the calls of all tasks "
+                   "(rows_order_multi, completed_in_transmission_order, mutex_exclusive). (3) The other tables (run_meta, address, "
+                   "scan_run, discovery_*, session_transition) with ids, foreign keys, the shared transaction and the handler "
+                   "object: for every program of API calls, every schedule and every cancellation point all references resolve after "
+                   "disconnect and in what is durable at any time, ids are unique, the writer never meets a constraint violation, "
+                   "and the tables do not depend on the writer's interleaving (foreign_keys_resolve, writer_never_dies, "
+                   "primary_keys_unique, tables_independent_of_writer_schedule). (4) The scanner-level implicit-logging switch: "
+                   "with the statement order of UDSScanner.setup() regenerated from the AST every request is recorded exactly "
+                   "when the switch is on (setup_requests_follow_switch). Tied to the code by a correspondence run of the real ECU "
+                   "+ DBHandler + sqlite file: every request kind x outcome class, cancellation at every await, seeded "
+                   "histories; 3 concurrent tasks incl. the real tester-present worker over scripted latencies with cancellations "
+                   "and injected OperationalErrors; API-call programs in any order, cut at every awaited statement, two sessions per "
+                   "file, all tables read back + PRAGMA foreign_key_check; a real UDSScanner through entry_point()."),
+    "level_note": ("Trusted: Lean kernel, sqlite/aiosqlite/file system durability, asyncio.Queue / asyncio.Lock contracts, wall "
+                   "clock monotonicity, the harness. The inner retry loop's outcome is an input of the model (C04 owns it). The "
+                   "atomicity of the finally-block, the unbounded queue, the shape of the writer's retry loop, the awaited steps of "
+                   "every DBHandler API call, the keys of the live DB_SCHEMA and the statement order of UDSScanner.setup() are "
+                   "regenerated from the working tree on every run and compared in Lean (finally_is_atomic, queue_unbounded, "
+                   "writer_retries_in_place, api_steps_agree, schema_keys_agree, switch_anchors). Recurring write faults block join() "
+                   "forever (proved, the code's own TODO); a disconnect() interrupted in join() is the known finding cancel-join."),
+    "technique": "Lean 4 proof (invariants over interleaving semantics: producer/consumer, FIFO mutex with several producers, transactional tables) + regenerated anchor tables + differential correspondence against the real ECU/DBHandler/UDSScanner on sqlite with fault injection",
     "design_ref": "DESIGN.md section 7, C11",
 }
